@@ -111,6 +111,35 @@ def main(tier: str) -> int:
         else:
             add({"op": "ad_lehmer", "x": [C.rat(v) for v in x], "w": [C.rat(v) for v in wn]}, ("lehmer", {"x": x, "w": wn}, got))
 
+    # SHAGA's memory update called directly, also with mutation rates from strings shorter than 5 bits (the admissible rates reach up
+    # to 5/str_len > 1 there): the written value is the improvement-weighted Lehmer mean, the preceding cell without successes
+    from thefittest.optimizers import SHAGA as _SHAGA
+    for str_len in (1, 2, 3, 4, 7, 40):
+        so = _SHAGA(fitness_function=lambda x: np.sum(x, axis=1, dtype=np.float64), iters=2, pop_size=4, str_len=str_len)
+        top = 5.0 / str_len
+        for _ in range(12 if tier == "quick" else 120):
+            n = rng.randint(0, 5)
+            S = np.array([rng.choice([top, top * 0.875, top * 0.5, 1.0 / str_len, top * 0.25]) for _ in range(n)], dtype=np.float64)
+            dfv = np.array([rng.choice([0.25, 1.0, 2.0, 7.0, 0.0]) for _ in range(n)], dtype=np.float64)
+            u = rng.choice([1.0 / str_len, top * 0.75])
+            with np.errstate(all="ignore"):
+                got = float(so._update_u(u, S, dfv))
+            Sf, dff = [Fraction(float(v)) for v in S], [Fraction(float(v)) for v in dfv]
+            if n and sum(dff) > 0:
+                den = sum(w * v for w, v in zip(dff, Sf))
+                want = sum(w * v * v for w, v in zip(dff, Sf)) / den if den != 0 else Fraction(0)
+            else:
+                want = Fraction(u)
+            chk.count("shaga_update_u_direct")
+            chk.case(("update_u", str_len, tuple(S.tolist()), tuple(dfv.tolist()), u))
+            if not C.close(got, float(want), 1e-9, 1e-12):
+                chk.fail("the written SHAGA memory cell is not the improvement-weighted Lehmer mean of the parameters of the strictly improving trials",
+                         {"call": "SHAGA._update_u", "str_len": str_len, "u": u, "S": S.tolist(), "df": dfv.tolist(), "written": got, "rule": float(want)},
+                         {"optimizer": "SHAGA", "clause": "rule", "memory": "direct", "above_one": bool(float(want) > 1)})
+            else:
+                add({"op": "ad_update_u", "u": C.rat(u), "S": [C.rat(float(v)) for v in S], "df": [C.rat(float(v)) for v in dfv]},
+                    ("update_U:SHAGA:direct", {"u": u, "S": S.tolist(), "df": dfv.tolist()}, got))
+
     # ---- runs
     runs = []
     sid = 0
@@ -134,6 +163,9 @@ def main(tier: str) -> int:
     # failed evaluations reported as -inf while maximising: an improvement FROM a failed parent is infinite
     runs.append(("SHADE", dict(pop_size=8, iters=10, objective="fail_lo", seed=chk.seed * 100 + 91, keep_history=True)))
     runs.append(("SHAGA", dict(pop_size=8, iters=10, objective="fail_lo", str_len=12, seed=chk.seed * 100 + 92, keep_history=True)))
+    # strings shorter than 5 bits: mutation rates up to 5/str_len > 1
+    for j, sl in enumerate((2, 3, 4)):
+        runs.append(("SHAGA", dict(pop_size=6, iters=12, objective="asym", str_len=sl, minimization=(j == 1), seed=chk.seed * 100 + 94 + j, keep_history=True)))
     # objectives in very small units (improvements far below numpy.isclose's absolute tolerance)
     for j, mn in enumerate((True, False)):
         runs.append(("SHADE", dict(pop_size=8, iters=14, objective="tiny", minimization=mn, seed=chk.seed * 100 + 80 + j, keep_history=True)))
